@@ -136,6 +136,26 @@ fn real_main() -> i32 {
     }
 
     let args: Vec<String> = std::env::args().collect();
+    if args.len() >= 7 && args[1] == "unw" {
+        // child of an UNW case: touch one pixel from a destructor that runs while this thread unwinds from a panic
+        struct G(u32, u32, u32, u32, bool);
+        impl Drop for G {
+            fn drop(&mut self) {
+                let mut p = flipdot_core::Page::new(flipdot_core::PageId(1), self.0, self.1);
+                if self.4 {
+                    p.set_pixel(self.2, self.3, true);
+                    println!("SET {}", proto::hex_of_bytes(p.as_bytes()));
+                } else {
+                    let v = p.get_pixel(self.2, self.3);
+                    println!("GET {} {}", v as u8, proto::hex_of_bytes(p.as_bytes()));
+                }
+                let _ = std::io::stdout().flush();
+            }
+        }
+        let n = |i: usize| args[i].parse::<u32>().unwrap_or(0);
+        let _g = G(n(2), n(3), n(4), n(5), args[6] == "S");
+        panic!("unwinding");
+    }
     if args.len() >= 2 && args[1] == "run" {
         let stdin = std::io::stdin();
         let stdout = std::io::stdout();
